@@ -218,6 +218,35 @@ CHECKS = {
         note=NOTE_COMMON,
         technique="Lean 4 proof (loop factorisation by induction on fuel, merge lemmas over the equality theorems) + correspondence check + desugaring oracle",
     ),
+    "C20": dict(
+        category="proof",
+        text=("Lean theorems (Edn.Properties.C20): the documented algorithm is a function of a block's source lines (indent, body) and closer position "
+              "(Edn.Spec.blockText: common indentation = minimum over lines with a body and the closing-delimiter line, trailing blanks stripped, relative "
+              "indentation and blank lines kept, escaped triple quote unescaped, final line feed iff the closer is on its own line); for every well-formed "
+              "block - any number of lines, any space/tab indentation incl. 0 on the first line, any number of escapes - the reader with the experimental "
+              "flag returns a string value holding exactly those bytes (exact length, no pending escapes), spanning the literal and leaving the rest "
+              "untouched; such a value is Eqv to and hashes like the ordinary literal of the same content. Tied to the code by an independent Python "
+              "implementation of the algorithm over source lines: all 0..2-line blocks (3 lines sampled in thorough) over 5 indentations x 9 bodies x 6 closers, "
+              "random blocks to 12 lines / indentation 20 / lines crossing 16-byte blocks; exact length and bytes, equality and hash against the ordinary "
+              "literal, collision in a set and as map keys, truncated blocks; model and library compared on every case."),
+        design_ref="DESIGN.md section 6, C20",
+        note=NOTE_COMMON,
+        technique="Lean 4 proof (scanner inversion by induction over body derivations and lines) + correspondence check + reference implementation of the algorithm",
+    ),
+    "C01": dict(
+        category="proof",
+        text=("Lean theorems (Edn.Properties.C01): every fixed-width accumulator of the number reader stays in range for every input (float mantissa "
+              "< 10^18, exponent <= 10009, radix prefix <= 369, the uint64 accumulator never exceeds its bound in the SWAR and both scalar tiers), the "
+              "integer parser's result fits int64 so conversion and negation incl. -2^63 are defined; every range stored in a returned tree lies inside "
+              "the input. The model reads its input only through total list operations on the given bytes, so it cannot depend on memory outside "
+              "input[0,length) - by construction. That the C code does not either is monitored, not proved: generated, extension, truncated-at-every-offset, "
+              "mutated, NUL/invalid-UTF-8 and byte-context documents in the four configurations run in the ASan+UBSan -O1 build (input in an exact-size heap "
+              "block) and in the -O2 -msse4.2 build with the last byte flush against a PROT_NONE page, read-only input pages and every start phase mod 16, "
+              "followed by hash/equal/lookup/accessor scripts on the tree; all outputs must equal the model's."),
+        design_ref="DESIGN.md section 6, C01",
+        note=NOTE_COMMON + " Partial: memory safety and absence of UB of the compiled C code are run-time observations on the explored inputs (sanitizers, guard pages); the theorems cover the arithmetic ranges and the slices.",
+        technique="Lean 4 proof (range invariants of accumulators; range theorem) + correspondence check under ASan/UBSan and guard-page placement",
+    ),
     "C05": dict(
         category="proof",
         text=("Lean theorems (Edn.Properties.C05), with round-to-nearest-even defined in exact natural-number arithmetic: every entry of the "
